@@ -36,7 +36,8 @@ TOL = {
 TRUSTED_BASE = [
     'Lean 4.33 kernel; axioms allowed: propext, Classical.choice, Quot.sound (audited per theorem on every run); no native_decide, bv_decide, sorry, own axioms',
     'Mathlib v4.33 definitions of Real, Real.exp/log/sqrt/rpow, Finset.sum',
-    'translators translate/{ir,py2ir,f2ir,gen}.py (validated each run: generated definitions executed at Float against the functions they were generated from)',
+    'translators translate/{ir,py2ir,py2ir2,f2ir,data2lean,lint,gen}.py (validated each run: generated definitions executed at Float against the functions they were generated from; constructs they cannot model are refused, not approximated)',
+    'statement pins harness/theorems/Cxx.txt (hash of each property theorem\'s type + reference to TamocV.Gen.*) computed by #audit_ns',
     'correspondence harness, generators and tolerance policy (harness/*.py, DESIGN §6)',
     'real-number semantics as stand-in for IEEE-754 double arithmetic and libm',
 ]
